@@ -202,6 +202,8 @@ func encMessage(n *Node) []byte {
 			case "mpreq.queue":
 				o.u32(r.Get("port_no"))
 				o.u32(r.Get("queue_id"))
+			case "mpreq.raw":
+				o.raw(r.GetB("data"))
 			default:
 				panic("spec: bad multipart request body " + r.Kind)
 			}
